@@ -1,8 +1,9 @@
 import PySMT.Proofs.C10Prenex
 import PySMT.Proofs.C10Partition
 import PySMT.Impl.Rewritings.Propagate
+import PySMT.Proofs.C05Sem
 /-!
-# C10 — `propagate_toplevel` on quantifier-free formulas (`propagate_equiv_partial`)
+# C10 — `propagate_toplevel` (`do_simplify=False`): equivalence, totality, well-formedness
 -/
 namespace PySMT.Rewritings
 
@@ -16,42 +17,7 @@ theorem typeOfNode_equals' (p : Payload) (ta tb : Ty) :
     simp only [allAre, List.all_cons, List.all_nil, Bool.and_true, beq_iff_eq, Option.some.injEq, reduceCtorEq,
       if_false]
 
-/-! ## replacing terms by terms of equal value -/
-
-/-- every replacement is well-formed and has the sort of its key -/
-def EqMap (σ : List (Term × Term)) : Prop := ∀ kv ∈ σ, kv.2.wf = true ∧ kv.2.typeOf = kv.1.typeOf
-
-theorem substT_equal {σ : List (Term × Term)} (hσ : EqMap σ) : (t : Term) → t.wf = true → t.isQF = true →
-    ((substT σ t).wf = true ∧ (substT σ t).typeOf = t.typeOf) ∧
-    ∀ I : Interp, I.WF → (∀ kv ∈ σ, eval I kv.1 = eval I kv.2) → eval I (substT σ t) = eval I t
-  | .node op args p => fun hwf hqf => by
-    rw [isQF_node] at hqf
-    simp only [Bool.and_eq_true, Bool.not_eq_eq_eq_not, Bool.not_true, List.all_eq_true] at hqf
-    obtain ⟨hq, hch⟩ := hqf
-    have hchwf := (Term.wf_node.mp hwf).1
-    have ih : ∀ a ∈ args, ((substT σ a).wf = true ∧ (substT σ a).typeOf = a.typeOf) ∧
-        ∀ I : Interp, I.WF → (∀ kv ∈ σ, eval I kv.1 = eval I kv.2) → eval I (substT σ a) = eval I a :=
-      fun a ha => substT_equal hσ a (hchwf a ha) (hch a ha)
-    cases hl : lookupT σ (.node op args p) with
-    | some r =>
-      have hm := lookupT_mem hl
-      have hsub : substT σ (.node op args p) = r := by rw [substT, hl]
-      rw [hsub]
-      exact ⟨hσ _ hm, fun I _ he => (he _ hm).symm⟩
-    | none =>
-      rw [substT_nonquant hq hl]
-      have hs : SameSorts (substT σ) args := fun a ha => (ih a ha).1
-      by_cases hsym : op = .symbol
-      · subst hsym
-        have hargs := Term.wt_symbol_args (Term.wf_wt _ hwf)
-        subst hargs
-        simp only [List.map_nil]
-        rw [rebuild_plain rfl]
-        exact ⟨⟨hwf, rfl⟩, fun _ _ _ => rfl⟩
-      · exact ⟨rebuild_wf hq hwf hs, fun I hI he =>
-          rebuild_eval hq hsym hwf hs hI hI rfl rfl rfl (fun a ha => (ih a ha).2 I hI he)⟩
-
-/-! ## … also below binders that bind none of the symbols involved -/
+/-! ## bound variables -/
 
 theorem boundVars_node (op : Op) (args : List Term) (p : Payload) :
     boundVars (.node op args p) =
@@ -68,129 +34,6 @@ theorem boundVars_child {op : Op} {args : List Term} {p : Payload} {a : Term} (h
 theorem boundVars_qvars {op : Op} {args : List Term} {vs : List Sym} {s : Sym} (hs : s ∈ vs) :
     s ∈ boundVars (.node op args (.qvars vs)) := by
   rw [boundVars_node]; exact List.mem_append_left _ hs
-
-/-- congruence of a block of binders for bodies that agree on the interpretations satisfying a
-property that binding the block's variables preserves -/
-theorem quant_congr_P (all : Bool) (P : Interp → Prop) (B : List Sym) (k k' : Interp → Bool)
-    (hP : ∀ (J : Interp) (s : Sym) (x : Val), P J → s ∈ B → P (J.bind s x))
-    (hk : ∀ J : Interp, J.WF → P J → k J = k' J) :
-    ∀ (vs : List Sym), (∀ s ∈ vs, s ∈ B) → ∀ I : Interp, I.WF → P I → I.quant all vs k = I.quant all vs k'
-  | [], _, I, hI, hp => hk I hI hp
-  | v :: vs, hvs, I, hI, hp => by
-    have step : ∀ x ∈ I.dom v.ret, (I.bind v x).quant all vs k = (I.bind v x).quant all vs k' :=
-      fun x hx => quant_congr_P all P B k k' hP hk vs (fun s hs => hvs s (by simp [hs])) _
-        (hI.bind v x (hI.dom_sort _ x hx)) (hP I v x hp (hvs v (by simp)))
-    simp only [Interp.quant]
-    rw [list_all_congr step, list_any_congr step]
-
-theorem dropBound_eq_self {σ : List (Term × Term)} {vs B : List Sym} (hvs : ∀ s ∈ vs, s ∈ B)
-    (hst : ∀ kv ∈ σ, ∀ s ∈ kv.1.fv ++ kv.2.fv, s ∉ B) : dropBound σ vs = σ := by
-  unfold dropBound
-  rw [List.filter_eq_self]
-  intro kv hkv
-  simp only [List.all_eq_true, Bool.not_eq_eq_eq_not, Bool.not_true]
-  intro m hm
-  cases hc : vs.contains m with
-  | false => rfl
-  | true =>
-    have : m ∈ vs := by simpa using hc
-    exact absurd (hvs m this) (hst kv hkv m (List.mem_append_left _ hm))
-
-theorem substT_equal_gen {σ : List (Term × Term)} (hσ : EqMap σ) (B : List Sym)
-    (hst : ∀ kv ∈ σ, ∀ s ∈ kv.1.fv ++ kv.2.fv, s ∉ B) : (t : Term) → t.wf = true →
-    (∀ s ∈ boundVars t, s ∈ B) →
-    ((substT σ t).wf = true ∧ (substT σ t).typeOf = t.typeOf) ∧
-    ∀ I : Interp, I.WF → (∀ kv ∈ σ, eval I kv.1 = eval I kv.2) → eval I (substT σ t) = eval I t
-  | .node op args p => fun hwf hB => by
-    have hchwf := (Term.wf_node.mp hwf).1
-    have ih : ∀ a ∈ args, ((substT σ a).wf = true ∧ (substT σ a).typeOf = a.typeOf) ∧
-        ∀ I : Interp, I.WF → (∀ kv ∈ σ, eval I kv.1 = eval I kv.2) → eval I (substT σ a) = eval I a :=
-      fun a ha => substT_equal_gen hσ B hst a (hchwf a ha) (fun s hs => hB s (boundVars_child ha hs))
-    -- the recorded equalities survive the binding of a variable of `B`
-    have hPres : ∀ (J : Interp) (s : Sym) (x : Val), (∀ kv ∈ σ, eval J kv.1 = eval J kv.2) → s ∈ B →
-        ∀ kv ∈ σ, eval (J.bind s x) kv.1 = eval (J.bind s x) kv.2 := by
-      intro J s x hJ hs kv hkv
-      have e : ∀ u : Term, (∀ y ∈ u.fv, y ∉ B) → eval (J.bind s x) u = eval J u := by
-        intro u hu
-        apply coincidence_gen
-        refine ⟨fun y hy => ?_, fun _ _ => rfl, rfl, rfl, rfl⟩
-        have : y ≠ s := fun e => hu y hy (e ▸ hs)
-        simp [Interp.bind, this]
-      rw [e kv.1 (fun y hy => hst kv hkv y (List.mem_append_left _ hy)),
-        e kv.2 (fun y hy => hst kv hkv y (List.mem_append_right _ hy))]
-      exact hJ kv hkv
-    cases hl : lookupT σ (.node op args p) with
-    | some r =>
-      have hm := lookupT_mem hl
-      have hsub : substT σ (.node op args p) = r := by rw [substT, hl]
-      rw [hsub]
-      exact ⟨hσ _ hm, fun I _ he => (he _ hm).symm⟩
-    | none =>
-      by_cases hq : op.isQuantifier = true
-      · -- a binder: the map is not restricted, the body is rewritten
-        have quantCase : ∀ (isEx : Bool), op = (if isEx then .exists_ else .forall_) →
-            ((substT σ (.node op args p)).wf = true ∧ (substT σ (.node op args p)).typeOf = (Term.node op args p).typeOf) ∧
-            ∀ I : Interp, I.WF → (∀ kv ∈ σ, eval I kv.1 = eval I kv.2) →
-              eval I (substT σ (.node op args p)) = eval I (.node op args p) := by
-          intro isEx hop
-          obtain ⟨b, vs, rfl, rfl⟩ := wf_quant_args (by cases isEx <;> simp [hop]) hwf
-          have hvsB : ∀ s ∈ vs, s ∈ B := fun s hs => hB s (boundVars_qvars hs)
-          have hbm : bodyMap σ op (.qvars vs) = σ := by
-            subst hop
-            cases isEx <;> simp only [bodyMap, Bool.false_eq_true, if_false, if_true] <;>
-              exact dropBound_eq_self hvsB hst
-          have hty : (Term.node op [b] (.qvars vs)).typeOf = some .bool := by
-            subst hop
-            rw [typeOf_node]
-            cases isEx
-            · simp only [Bool.false_eq_true, if_false]
-              have := typeOfNode_forall (Term.wt_typeOf (Term.wf_wt _ (by simpa using hwf)))
-              rw [this]; rfl
-            · simp only [if_true]
-              have := typeOfNode_exists (Term.wt_typeOf (Term.wf_wt _ (by simpa using hwf)))
-              rw [this]; rfl
-          have hb : WB b := by
-            subst hop
-            cases isEx
-            · exact (wb_forall b vs).mp ⟨by simpa using hwf, by simpa using hty⟩
-            · exact (wb_exists b vs).mp ⟨by simpa using hwf, by simpa using hty⟩
-          have hb1 := ih b (by simp)
-          have hb' : WB (substT σ b) := ⟨hb1.1.1, by rw [hb1.1.2]; exact hb.2⟩
-          have hsub : substT σ (.node op [b] (.qvars vs)) =
-              (if isEx then mkExists vs (substT σ b) else mkForall vs (substT σ b)) := by
-            rw [substT, hl, hbm]
-            subst hop
-            cases isEx <;> rfl
-          rw [hsub, hty]
-          subst hop
-          cases isEx
-          · simp only [Bool.false_eq_true, if_false]
-            refine ⟨wb_mkForall hb', fun I hI he => ?_⟩
-            rw [eval_mkForall hI vs hb', eval_forall']
-            congr 1
-            exact quant_congr_P true _ B _ _ hPres
-              (fun J hJ hp => by simp only [truth]; rw [hb1.2 J hJ hp]) vs hvsB I hI he
-          · simp only [if_true]
-            refine ⟨wb_mkExists hb', fun I hI he => ?_⟩
-            rw [eval_mkExists hI vs hb', eval_exists']
-            congr 1
-            exact quant_congr_P false _ B _ _ hPres
-              (fun J hJ hp => by simp only [truth]; rw [hb1.2 J hJ hp]) vs hvsB I hI he
-        cases op <;> simp [Op.isQuantifier] at hq
-        · exact quantCase false rfl
-        · exact quantCase true rfl
-      · have hq' : op.isQuantifier = false := by simpa using hq
-        rw [substT_nonquant hq' hl]
-        have hs : SameSorts (substT σ) args := fun a ha => (ih a ha).1
-        by_cases hsym : op = .symbol
-        · subst hsym
-          have hargs := Term.wt_symbol_args (Term.wf_wt _ hwf)
-          subst hargs
-          simp only [List.map_nil]
-          rw [rebuild_plain rfl]
-          exact ⟨⟨hwf, rfl⟩, fun _ _ _ => rfl⟩
-        · exact ⟨rebuild_wf hq' hwf hs, fun I hI he =>
-            rebuild_eval hq' hsym hwf hs hI hI rfl rfl rfl (fun a ha => (ih a ha).2 I hI he)⟩
 
 /-! ## the disjoint set: every member has the value of its leader -/
 
@@ -427,73 +270,6 @@ theorem const_inj {a b : Term} (ha : a.wf = true) (hb : b.wf = true) (hca : isCo
   rcases form b hb hcb with ⟨v', rfl, e2⟩ | ⟨v', rfl, e2⟩ | ⟨v', rfl, e2⟩ | ⟨v', rfl, e2⟩ | ⟨v', w', rfl, e2⟩ <;>
   (rw [e1, e2] at h; first | (cases h; rfl) | cases h)
 
-/-! ## the terms of the leader map are sides of top-level definitions -/
-
-def LMem (T : List Term) (l : Leader) : Prop := ∀ kv ∈ l, kv.1 ∈ T ∧ kv.2 ∈ T
-
-theorem dsAdd_mem {rank : Term → Int} {T : List Term} {l l' : Leader} {a b : Term} (h : dsAdd rank l a b = some l')
-    (ha : a ∈ T) (hb : b ∈ T) (hl : LMem T l) : LMem T l' := by
-  have hl2 : LMem T ((l.ensure a).ensure b) := by
-    intro kv hkv
-    rcases ensure_mem hkv with h1 | rfl
-    · rcases ensure_mem h1 with h2 | rfl
-      · exact hl kv h2
-      · exact ⟨ha, ha⟩
-    · exact ⟨hb, hb⟩
-  obtain ⟨la, hla0⟩ := ensure_get l a
-  have hla : ((l.ensure a).ensure b).get a = some la := ensure_get_mono hla0
-  obtain ⟨lb, hlb⟩ := ensure_get (l.ensure a) b
-  unfold dsAdd at h
-  simp only [hla, hlb] at h
-  have hma := (hl2 _ (lookupT_mem hla)).2
-  have hmb := (hl2 _ (lookupT_mem hlb)).2
-  split at h
-  · cases h; exact hl2
-  · cases hc : compareRank rank la lb with
-    | none => rw [hc] at h; cases h
-    | some c =>
-      rw [hc] at h
-      simp only [Option.bind_eq_bind, Option.bind_some, Option.pure_def, Option.some.injEq] at h
-      subst h
-      have hw : (if c > 0 then lb else la) ∈ T := by split <;> assumption
-      generalize (if c > 0 then lb else la) = w at hw
-      generalize (if c > 0 then la else lb) = lo
-      intro kv hkv
-      obtain ⟨kv0, hkv0, rfl⟩ := List.mem_map.mp hkv
-      by_cases heq : (kv0.2 == lo) = true
-      · simp only [heq, if_true]; exact ⟨(hl2 kv0 hkv0).1, hw⟩
-      · simp only [heq, Bool.false_eq_true, if_false]; exact hl2 kv0 hkv0
-
-theorem buildLeader_mem {rank : Term → Int} {T : List Term} : ∀ (cs : List Term) (l l' : Leader),
-    buildLeader rank cs l = some l' →
-    (∀ c ∈ cs, ∀ a b, isDefinition c = some (a, b) → a ∈ T ∧ b ∈ T) → LMem T l → LMem T l'
-  | [], l, l', h, _, hl => by
-    simp only [buildLeader, Option.some.injEq] at h
-    subst h; exact hl
-  | c :: cs, l, l', h, hT, hl => by
-    rw [buildLeader] at h
-    cases hd : isDefinition c with
-    | none =>
-      rw [hd] at h
-      exact buildLeader_mem cs l l' h (fun x hx => hT x (by simp [hx])) hl
-    | some ab =>
-      obtain ⟨a, b⟩ := ab
-      rw [hd] at h
-      simp only at h
-      cases hds : dsAdd rank l a b with
-      | none => rw [hds] at h; cases h
-      | some l1 =>
-        rw [hds] at h
-        simp only [Option.bind_some] at h
-        have hab := hT c (by simp) a b hd
-        exact buildLeader_mem cs l1 l' h (fun x hx => hT x (by simp [hx])) (dsAdd_mem hds hab.1 hab.2 hl)
-
-theorem defTerms_mem {t c a b : Term} (hc : c ∈ conjPartition t) (hd : isDefinition c = some (a, b)) :
-    a ∈ defTerms t ∧ b ∈ defTerms t := by
-  unfold defTerms
-  simp only [List.mem_flatMap]
-  exact ⟨⟨c, hc, by rw [hd]; simp⟩, ⟨c, hc, by rw [hd]; simp⟩⟩
-
 /-! ## the loop over the conjuncts -/
 
 theorem buildLeader_inv {rank : Term → Int} : ∀ (cs : List Term) (l l' : Leader),
@@ -528,109 +304,470 @@ theorem buildLeader_inv {rank : Term → Int} : ∀ (cs : List Term) (l l' : Lea
         rw [truth_equals] at this
         simpa using this
 
-/-- the core of `propagate_equiv`, for any class of formulas in which replacing the members of the
-recorded classes by their leaders preserves the value (`hrep`) -/
-theorem propagate_core (rank : Term → Int) (t r : Term) (hwf : t.wf = true) (hty : t.typeOf = some .bool)
-    (hrep : ∀ σ : List (Term × Term), EqMap σ → (∀ kv ∈ σ, kv.1 ∈ defTerms t ∧ kv.2 ∈ defTerms t) →
-      ((substT σ t).wf = true ∧ (substT σ t).typeOf = t.typeOf) ∧
-      ∀ I : Interp, I.WF → (∀ kv ∈ σ, eval I kv.1 = eval I kv.2) → eval I (substT σ t) = eval I t)
-    (h : propagate rank t = some r) (I : Interp) (hI : I.WF) :
-    eval I r = eval I t := by
+/-! ## kinds of the members: symbols and constants; a class that contains a constant is led by one -/
+
+open PySMT.Subst PySMT.SubstSpec PySMT.Build in
+section
+
+def Leaf (t : Term) : Prop := isSymbol t = true ∨ isConstant t = true
+
+def LKind (l : Leader) : Prop := ∀ kv ∈ l, Leaf kv.1 ∧ Leaf kv.2 ∧ (isConstant kv.1 = true → isConstant kv.2 = true)
+
+theorem compareRank_winner {rank : Term → Int} {la lb : Term} {c : Int} (hne : (la == lb) = false)
+    (h : compareRank rank la lb = some c) :
+    isConstant (if c > 0 then la else lb) = true → isConstant (if c > 0 then lb else la) = true := by
+  unfold compareRank at h
+  simp only [hne, Bool.false_eq_true, if_false] at h
+  by_cases h1 : isConstant la = true <;> by_cases h2 : isConstant lb = true
+  · intro _; split <;> assumption
+  · simp only [h1, h2, Bool.and_false, Bool.false_eq_true, if_false, if_true, Option.some.injEq] at h
+    subst h; simp [h1]
+  · simp only [h1, h2, Bool.false_and, Bool.false_eq_true, if_false, if_true, Option.some.injEq] at h
+    subst h; simp [h2]
+  · intro hc
+    split at hc
+    · exact absurd hc h1
+    · exact absurd hc h2
+
+theorem isDefinition_leaf {c a b : Term} (h : isDefinition c = some (a, b)) : Leaf a ∧ Leaf b := by
+  unfold isDefinition at h
+  split at h
+  · split at h
+    · next hc =>
+      simp only [Option.some.injEq, Prod.mk.injEq] at h
+      obtain ⟨rfl, rfl⟩ := h
+      simp only [Bool.and_eq_true, Bool.or_eq_true] at hc
+      exact ⟨hc.1, hc.2⟩
+    · cases h
+  · cases h
+
+theorem dsAdd_kind {rank : Term → Int} {l l' : Leader} {a b : Term} (h : dsAdd rank l a b = some l')
+    (ha : Leaf a) (hb : Leaf b) (hl : LKind l) : LKind l' := by
+  have hl2 : LKind ((l.ensure a).ensure b) := by
+    intro kv hkv
+    rcases ensure_mem hkv with h1 | rfl
+    · rcases ensure_mem h1 with h2 | rfl
+      · exact hl kv h2
+      · exact ⟨ha, ha, fun h => h⟩
+    · exact ⟨hb, hb, fun h => h⟩
+  obtain ⟨la, hla0⟩ := ensure_get l a
+  have hla : ((l.ensure a).ensure b).get a = some la := ensure_get_mono hla0
+  obtain ⟨lb, hlb⟩ := ensure_get (l.ensure a) b
+  unfold dsAdd at h
+  simp only [hla, hlb] at h
+  have hma := (hl2 _ (lookupT_mem hla)).2.1
+  have hmb := (hl2 _ (lookupT_mem hlb)).2.1
+  split at h
+  · cases h; exact hl2
+  · next hne =>
+    cases hc : compareRank rank la lb with
+    | none => rw [hc] at h; cases h
+    | some c =>
+      rw [hc] at h
+      simp only [Option.bind_eq_bind, Option.bind_some, Option.pure_def, Option.some.injEq] at h
+      subst h
+      have hwin := compareRank_winner (by simpa using hne) hc
+      have hw : Leaf (if c > 0 then lb else la) := by split <;> assumption
+      generalize (if c > 0 then lb else la) = w at hw hwin
+      generalize (if c > 0 then la else lb) = lo at hwin
+      intro kv hkv
+      obtain ⟨kv0, hkv0, rfl⟩ := List.mem_map.mp hkv
+      by_cases heq : (kv0.2 == lo) = true
+      · simp only [heq, if_true]
+        have e : kv0.2 = lo := by simpa using heq
+        exact ⟨(hl2 kv0 hkv0).1, hw, fun hk => hwin (e ▸ (hl2 kv0 hkv0).2.2 hk)⟩
+      · simp only [heq, Bool.false_eq_true, if_false]; exact hl2 kv0 hkv0
+
+/-! ## well-formed constants and symbols -/
+
+theorem const_form {t : Term} (hwf : t.wf = true) (hc : isConstant t = true) :
+    (∃ v, t = .node .intConst [] (.i v)) ∨ (∃ v, t = .node .realConst [] (.q v)) ∨
+    (∃ v, t = .node .boolConst [] (.b v)) ∨ (∃ v, t = .node .strConst [] (.s v)) ∨
+    (∃ v w, t = .node .bvConst [] (.bv v w)) := by
+  match t, hwf, hc with
+  | .node op args p, hwf, hc =>
+    have hs := (Term.wf_node.mp hwf).2.1
+    have hnil : (args.length == 0) = true → args = [] := by
+      intro h0
+      cases args with
+      | nil => rfl
+      | cons x xs => simp at h0
+    cases op <;> simp [isConstant, Term.op, Op.isConstant] at hc
+    case intConst =>
+      cases p with
+      | i v => have := hnil hs; subst this; exact .inl ⟨v, rfl⟩
+      | _ => exact Bool.noConfusion hs
+    case realConst =>
+      cases p with
+      | q v => have := hnil hs; subst this; exact .inr (.inl ⟨v, rfl⟩)
+      | _ => exact Bool.noConfusion hs
+    case boolConst =>
+      cases p with
+      | b v => have := hnil hs; subst this; exact .inr (.inr (.inl ⟨v, rfl⟩))
+      | _ => exact Bool.noConfusion hs
+    case strConst =>
+      cases p with
+      | s v => have := hnil hs; subst this; exact .inr (.inr (.inr (.inl ⟨v, rfl⟩)))
+      | _ => exact Bool.noConfusion hs
+    case bvConst =>
+      cases p with
+      | bv v w =>
+        have hs' : (args.length == 0) = true := by
+          have : (args.length == 0 && decide (v < 2 ^ w)) = true := hs
+          simp only [Bool.and_eq_true] at this
+          exact this.1
+        have := hnil hs'; subst this
+        exact .inr (.inr (.inr (.inr ⟨v, w, rfl⟩)))
+      | _ => exact Bool.noConfusion hs
+    case algebraicConst => exact Bool.noConfusion hs
+
+theorem sym_form {t : Term} (hwf : t.wf = true) (hs : isSymbol t = true) : ∃ s, t = Term.sym s ∧ s.params = [] := by
+  match t, hwf, hs with
+  | .node op args p, hwf, hs =>
+    have hop : op = .symbol := by
+      unfold isSymbol at hs
+      split at hs
+      · next heq => cases heq; rfl
+      · cases hs
+    subst hop
+    have hargs := Term.wt_symbol_args (Term.wf_wt _ hwf)
+    subst hargs
+    obtain ⟨_, s, rfl, hp⟩ := typeOfNode_symbol (Term.wt_typeOf (Term.wf_wt _ hwf))
+    exact ⟨s, rfl, hp⟩
+
+/-- constants of one sort can be ranked -/
+theorem compareRank_total {rank : Term → Int} {la lb : Term} {τ : Ty} (hτ : τ ≠ .bool)
+    (hwa : la.wf = true) (hwb : lb.wf = true) (hta : la.typeOf = some τ) (htb : lb.typeOf = some τ) :
+    ∃ c, compareRank rank la lb = some c := by
+  unfold compareRank
+  split
+  · exact ⟨_, rfl⟩
+  · split
+    · next hcc =>
+      simp only [Bool.and_eq_true] at hcc
+      have tint : ∀ v, (Term.node .intConst [] (.i v)).typeOf = some .int := fun v => by rw [typeOf_node]; rfl
+      have treal : ∀ v, (Term.node .realConst [] (.q v)).typeOf = some .real := fun v => by rw [typeOf_node]; rfl
+      have tbool : ∀ v, (Term.node .boolConst [] (.b v)).typeOf = some .bool := fun v => by rw [typeOf_node]; rfl
+      have tstr : ∀ v, (Term.node .strConst [] (.s v)).typeOf = some .str := fun v => by rw [typeOf_node]; rfl
+      have tbv : ∀ v w, (Term.node .bvConst [] (.bv v w)).typeOf = some (.bv w) := fun v w => by rw [typeOf_node]; rfl
+      rcases const_form hwa hcc.1 with ⟨v, rfl⟩ | ⟨v, rfl⟩ | ⟨v, rfl⟩ | ⟨v, rfl⟩ | ⟨v, w, rfl⟩ <;>
+      rcases const_form hwb hcc.2 with ⟨v', rfl⟩ | ⟨v', rfl⟩ | ⟨v', rfl⟩ | ⟨v', rfl⟩ | ⟨v', w', rfl⟩ <;>
+      first
+        | exact ⟨_, rfl⟩
+        | (exfalso
+           simp only [tint, treal, tbool, tstr, tbv, Option.some.injEq] at hta htb
+           subst hta
+           first | exact hτ rfl | cases htb)
+    · split
+      · exact ⟨_, rfl⟩
+      · split <;> exact ⟨_, rfl⟩
+
+/-! ## the loop never fails on well-formed input -/
+
+theorem dsAdd_total {rank : Term → Int} {l : Leader} {a b : Term}
+    (hty : ∃ τ : Ty, τ ≠ .bool ∧ a.wf = true ∧ b.wf = true ∧ a.typeOf = some τ ∧ b.typeOf = some τ)
+    (hl : LTy l) : ∃ l', dsAdd rank l a b = some l' := by
+  obtain ⟨τ, hτ, hwa, hwb, hta, htb⟩ := hty
+  have hl2 : LTy ((l.ensure a).ensure b) := by
+    intro kv hkv
+    rcases ensure_mem hkv with h1 | rfl
+    · rcases ensure_mem h1 with h2 | rfl
+      · exact hl kv h2
+      · exact ⟨τ, hτ, hwa, hwa, hta, hta⟩
+    · exact ⟨τ, hτ, hwb, hwb, htb, htb⟩
+  obtain ⟨la, hla0⟩ := ensure_get l a
+  have hla : ((l.ensure a).ensure b).get a = some la := ensure_get_mono hla0
+  obtain ⟨lb, hlb⟩ := ensure_get (l.ensure a) b
+  obtain ⟨τa, _, _, hwla, htaa, htla⟩ := hl2 _ (lookupT_mem hla)
+  obtain ⟨τb, _, _, hwlb, htbb, htlb⟩ := hl2 _ (lookupT_mem hlb)
+  have e1 : τa = τ := by simp only at htaa; rw [hta] at htaa; exact (Option.some.inj htaa).symm
+  have e2 : τb = τ := by simp only at htbb; rw [htb] at htbb; exact (Option.some.inj htbb).symm
+  obtain ⟨c, hc⟩ := compareRank_total (rank := rank) hτ hwla hwlb (by rw [← e1]; exact htla) (by rw [← e2]; exact htlb)
+  unfold dsAdd
+  simp only [hla, hlb]
+  split
+  · exact ⟨_, rfl⟩
+  · rw [hc]; exact ⟨_, rfl⟩
+
+theorem buildLeader_total {rank : Term → Int} : ∀ (cs : List Term) (l : Leader),
+    (∀ c ∈ cs, WB c) → LTy l → ∃ l', buildLeader rank cs l = some l'
+  | [], l, _, _ => ⟨l, rfl⟩
+  | c :: cs, l, hwb, hl => by
+    rw [buildLeader]
+    cases hd : isDefinition c with
+    | none => exact buildLeader_total cs l (fun x hx => hwb x (by simp [hx])) hl
+    | some ab =>
+      obtain ⟨a, b⟩ := ab
+      simp only
+      obtain ⟨p, rfl⟩ := isDefinition_eq hd
+      have hty := def_ty (hwb (.node .equals [a, b] p) List.mem_cons_self)
+      obtain ⟨l1, h1⟩ := dsAdd_total (rank := rank) hty hl
+      rw [h1]
+      simp only [Option.bind_some]
+      exact buildLeader_total cs l1 (fun x hx => hwb x (by simp [hx])) (dsAdd_inv h1 hty hl).1
+
+theorem buildLeader_kind {rank : Term → Int} : ∀ (cs : List Term) (l l' : Leader),
+    buildLeader rank cs l = some l' → LKind l → LKind l'
+  | [], l, l', h, hl => by
+    simp only [buildLeader, Option.some.injEq] at h
+    subst h; exact hl
+  | c :: cs, l, l', h, hl => by
+    rw [buildLeader] at h
+    cases hd : isDefinition c with
+    | none => rw [hd] at h; exact buildLeader_kind cs l l' h hl
+    | some ab =>
+      obtain ⟨a, b⟩ := ab
+      rw [hd] at h
+      simp only at h
+      cases hds : dsAdd rank l a b with
+      | none => rw [hds] at h; cases h
+      | some l1 =>
+        rw [hds] at h
+        simp only [Option.bind_some] at h
+        have hab := isDefinition_leaf hd
+        exact buildLeader_kind cs l1 l' h (dsAdd_kind hds hab.1 hab.2 hl)
+
+/-! ## no capture when no symbol of a representative is bound -/
+
+theorem noCapture_of_vals : (t : Term) → ∀ σ : SMap, (∀ kv ∈ σ, ∀ s ∈ kv.2.fv, s ∉ boundVars t) →
+    NoCapture σ t = true
+  | .node op args p, σ, h => by
+    have ihc : ∀ (σ' : SMap), (∀ kv ∈ σ', kv ∈ σ) → (args.map (NoCapture σ')).all id = true := by
+      intro σ' hsub
+      simp only [List.all_eq_true, List.mem_map, id]
+      rintro _ ⟨a, ha, rfl⟩
+      exact noCapture_of_vals a σ' (fun kv hkv s hs hb => h kv (hsub kv hkv) s hs (boundVars_child ha hb))
+    by_cases hq : op.isQuantifier = true
+    · cases p with
+      | qvars vs =>
+        rw [NoCapture_q σ args vs hq, Bool.and_eq_true]
+        refine ⟨?_, ihc _ (fun kv hkv => (List.mem_filter.mp hkv).1)⟩
+        simp only [List.all_eq_true, Bool.or_eq_true]
+        intro kv hkv
+        right
+        intro z hz
+        have := h kv (List.mem_filter.mp hkv).1 z hz
+        cases hc : vs.contains z with
+        | false => rfl
+        | true => exact absurd (boundVars_qvars (by simpa using hc)) this
+      | _ =>
+        rw [NoCapture.eq_def]
+        simp only [hq]
+        exact ihc σ (fun _ h => h)
+    · have hq' : op.isQuantifier = false := by simpa using hq
+      rw [NoCapture_nq σ args p hq']
+      exact ihc σ (fun _ h => h)
+
+/-! ## the main theorems -/
+
+/-- the symbol of a symbol node -/
+def symOf : Term → Sym
+  | .node _ _ (.sym s) => s
+  | _ => default
+
+/-- what the run of `propagate` looks like on a well-formed formula -/
+theorem propagate_run (rank : Term → Int) (t : Term) (hwf : t.wf = true) (hty : t.typeOf = some .bool) :
+    ∃ l, buildLeader rank (conjPartition t) [] = some l ∧ LTy l ∧ LKind l ∧
+      (∀ I : Interp, I.WF → truth I t = true → LInv I l) := by
   have hwb : WB t := ⟨hwf, hty⟩
   have hleaves := conjLeaves_spec t hwb
   have hcs : ∀ c ∈ conjPartition t, WB c := fun c hc => (hleaves.1 c ((mem_dedup c _).mp hc)).1
-  unfold propagate at h
-  cases hb : buildLeader rank (conjPartition t) [] with
-  | none => rw [hb] at h; cases h
-  | some l =>
-    rw [hb] at h
-    simp only [Option.bind_eq_bind, Option.bind_some] at h
-    obtain ⟨hlty, hlinv⟩ := buildLeader_inv _ [] l hb hcs (fun kv hkv => by cases hkv)
-    have hlmem : LMem (defTerms t) l :=
-      buildLeader_mem _ [] l hb (fun c hc a b hd => defTerms_mem hc hd) (fun kv hkv => by cases hkv)
-    -- if `t` holds, every member has the value of its leader
-    have key : truth I t = true → LInv I l := by
-      intro ht
-      apply hlinv I _ (fun kv hkv => by cases hkv)
-      intro c hc
-      have := hleaves.2 I hI
-      rw [ht, List.all_eq_true] at this
-      exact this c ((mem_dedup c _).mp hc)
-    have hmoved : ∀ kv ∈ l.filter (fun kv => kv.1 != kv.2), kv ∈ l ∧ kv.1 ≠ kv.2 := by
-      intro kv hkv
-      have := List.mem_filter.mp hkv
-      exact ⟨this.1, by simpa using this.2⟩
-    split at h
-    · -- two different constants in one class
-      next hconf =>
-      simp only [Option.pure_def, Option.some.injEq] at h
-      subst h
-      obtain ⟨kv, hkv, hk⟩ := List.any_eq_true.mp hconf
-      simp only [Bool.and_eq_true] at hk
-      obtain ⟨hm, hne⟩ := hmoved kv hkv
-      obtain ⟨τ, _, hw1, hw2, _, _⟩ := hlty kv hm
-      rw [eval_ff, hwb.isB hI]
-      congr 1
+  obtain ⟨l, hb⟩ := buildLeader_total (rank := rank) (conjPartition t) [] hcs (fun kv hkv => by cases hkv)
+  obtain ⟨hlty, hlinv⟩ := buildLeader_inv _ [] l hb hcs (fun kv hkv => by cases hkv)
+  refine ⟨l, hb, hlty, buildLeader_kind _ [] l hb (fun kv hkv => by cases hkv), fun I hI ht => ?_⟩
+  apply hlinv I _ (fun kv hkv => by cases hkv)
+  intro c hc
+  have := hleaves.2 I hI
+  rw [ht, List.all_eq_true] at this
+  exact this c ((mem_dedup c _).mp hc)
+
+/-- the substitution of the non-conflict branch as a symbol-keyed map of C05 -/
+theorem moved_smap {l : Leader} (hlty : LTy l) (hk : LKind l)
+    (hnc : (l.filter (fun kv => kv.1 != kv.2)).any (fun kv => isConstant kv.1 && isConstant kv.2) = false) :
+    (l.filter (fun kv => kv.1 != kv.2)) =
+      SMap.toTMap ((l.filter (fun kv => kv.1 != kv.2)).map (fun kv => (symOf kv.1, kv.2))) ∧
+    SMapOK ((l.filter (fun kv => kv.1 != kv.2)).map (fun kv => (symOf kv.1, kv.2))) := by
+  have key : ∀ kv ∈ l.filter (fun kv => kv.1 != kv.2), ∃ s, kv.1 = Term.sym s ∧ s.params = [] ∧ symOf kv.1 = s := by
+    intro kv hkv
+    have hm := (List.mem_filter.mp hkv).1
+    obtain ⟨τ, _, hw1, _, _, _⟩ := hlty kv hm
+    obtain ⟨hl1, _, hcc⟩ := hk kv hm
+    have hnc1 : isConstant kv.1 = false := by
+      cases hc : isConstant kv.1 with
+      | false => rfl
+      | true =>
+        have := List.any_eq_false.mp hnc kv hkv
+        simp [hc, hcc hc] at this
+    rcases hl1 with hs | hc
+    · obtain ⟨s, e, hp⟩ := sym_form hw1 hs
+      exact ⟨s, e, hp, by rw [e]; rfl⟩
+    · rw [hnc1] at hc; cases hc
+  constructor
+  · unfold SMap.toTMap
+    rw [List.map_map]
+    conv => lhs; rw [← List.map_id (l.filter (fun kv => kv.1 != kv.2))]
+    apply List.map_congr_left
+    intro kv hkv
+    obtain ⟨s, e, _, e2⟩ := key kv hkv
+    simp only [Function.comp, id, e2]
+    rw [← e]
+  · intro p hp
+    obtain ⟨kv, hkv, rfl⟩ := List.mem_map.mp hp
+    obtain ⟨s, e, hpar, e2⟩ := key kv hkv
+    obtain ⟨τ, _, _, hw2, ht1, ht2⟩ := hlty kv (List.mem_filter.mp hkv).1
+    simp only [e2]
+    refine ⟨hpar, hw2, ?_⟩
+    rw [e, typeOf_sym hpar] at ht1
+    rw [ht2, ← ht1]
+
+theorem propagate_unfold (rank : Term → Int) (t : Term) {l : Leader}
+    (hb : buildLeader rank (conjPartition t) [] = some l) :
+    propagate rank t =
+      if (l.filter (fun kv => kv.1 != kv.2)).any (fun kv => isConstant kv.1 && isConstant kv.2) then some Term.ff
+      else some (mkAnd [substG false noInterp (l.filter (fun kv => kv.1 != kv.2)) t,
+                        mkAnd ((l.filter (fun kv => kv.1 != kv.2)).map (fun kv => Term.mkEq kv.1 kv.2))]) := by
+  unfold propagate
+  rw [hb]
+  simp only [Option.bind_eq_bind, Option.bind_some, Option.pure_def]
+
+/-- **`propagate_total`**: on a well-formed formula `propagate_toplevel` returns (the ranking never fails) -/
+theorem propagate_total_main (rank : Term → Int) (t : Term) (hwf : t.wf = true) (hty : t.typeOf = some .bool) :
+    ∃ r, propagate rank t = some r := by
+  obtain ⟨l, hb, _, _, _⟩ := propagate_run rank t hwf hty
+  rw [propagate_unfold rank t hb]
+  split <;> exact ⟨_, rfl⟩
+
+/-- well-formedness of the pieces of the non-conflict result -/
+theorem propagate_pieces {t : Term} (hwf : t.wf = true) (hty : t.typeOf = some .bool) (hn : normal t = true)
+    {l : Leader} (hlty : LTy l) :
+    WB (substG false noInterp (l.filter (fun kv => kv.1 != kv.2)) t) ∧
+    ∀ x ∈ (l.filter (fun kv => kv.1 != kv.2)).map (fun kv => Term.mkEq kv.1 kv.2), WB x := by
+  have hwm : WfMap (l.filter (fun kv => kv.1 != kv.2)) := by
+    intro kv hkv
+    obtain ⟨τ, _, _, hw2, ht1, ht2⟩ := hlty kv (List.mem_filter.mp hkv).1
+    exact ⟨hw2, by rw [ht1, ht2]⟩
+  refine ⟨⟨substG_wf false noInterp_typed noInterp_wf t _ hwm hwf hn, ?_⟩, ?_⟩
+  · rw [(substG_type false noInterp_typed t _ hwm.tyMap (Term.wf_wt _ hwf) hn).2]; exact hty
+  · intro x hx
+    obtain ⟨kv, hkv, rfl⟩ := List.mem_map.mp hx
+    obtain ⟨τ, hτ, hw1, hw2, ht1, ht2⟩ := hlty kv (List.mem_filter.mp hkv).1
+    exact wb_mkEq hτ hw1 hw2 ht1 ht2
+
+/-- **`propagate_wf`**: the result is a well-formed formula -/
+theorem propagate_wf_main (rank : Term → Int) (t r : Term) (hwf : t.wf = true) (hty : t.typeOf = some .bool)
+    (hn : normal t = true) (h : propagate rank t = some r) : r.wf = true ∧ r.typeOf = some .bool := by
+  obtain ⟨l, hb, hlty, _, _⟩ := propagate_run rank t hwf hty
+  rw [propagate_unfold rank t hb] at h
+  split at h
+  · cases h; exact wb_ff
+  · cases h
+    obtain ⟨h1, h2⟩ := propagate_pieces hwf hty hn hlty
+    exact wb_mkAnd (wb_pair h1 (wb_mkAnd h2))
+
+/-- **`propagate_equiv`** (`do_simplify=False`): when no symbol of a representative is bound in the
+formula, the result has the value of the input -/
+theorem propagate_equiv_main (rank : Term → Int) (t r : Term) (hwf : t.wf = true) (hty : t.typeOf = some .bool)
+    (hn : normal t = true) (hck : ConstKeys t = true) (hsafe : repsNotBound rank t = true)
+    (h : propagate rank t = some r) (I : Interp) (hI : I.WF) : eval I r = eval I t := by
+  have hwb : WB t := ⟨hwf, hty⟩
+  obtain ⟨l, hb, hlty, hkind, key⟩ := propagate_run rank t hwf hty
+  rw [propagate_unfold rank t hb] at h
+  have hmoved : ∀ kv ∈ l.filter (fun kv => kv.1 != kv.2), kv ∈ l ∧ kv.1 ≠ kv.2 := by
+    intro kv hkv
+    have := List.mem_filter.mp hkv
+    exact ⟨this.1, by simpa using this.2⟩
+  split at h
+  · -- two different constants in one class
+    next hconf =>
+    cases h
+    obtain ⟨kv, hkv, hk⟩ := List.any_eq_true.mp hconf
+    simp only [Bool.and_eq_true] at hk
+    obtain ⟨hm, hne⟩ := hmoved kv hkv
+    obtain ⟨τ, _, hw1, hw2, _, _⟩ := hlty kv hm
+    rw [eval_ff, hwb.isB hI]
+    congr 1
+    cases ht : truth I t with
+    | false => rfl
+    | true => exact absurd (const_inj hw1 hw2 hk.1 hk.2 I (key I hI ht kv hm)) hne
+  · next hnconf =>
+    cases h
+    have hnc : (l.filter (fun kv => kv.1 != kv.2)).any (fun kv => isConstant kv.1 && isConstant kv.2) = false := by
+      simpa using hnconf
+    obtain ⟨hsub, hweqs⟩ := propagate_pieces hwf hty hn hlty
+    obtain ⟨emv, hσ⟩ := moved_smap hlty hkind hnc
+    -- no capture
+    have hcap : NoCapture ((l.filter (fun kv => kv.1 != kv.2)).map (fun kv => (symOf kv.1, kv.2))) t = true := by
+      apply noCapture_of_vals
+      intro p hp s hs hbv
+      obtain ⟨kv, hkv, rfl⟩ := List.mem_map.mp hp
+      unfold repsNotBound movedOf at hsafe
+      rw [hb] at hsafe
+      simp only [Option.map_some, List.all_eq_true, Bool.not_eq_eq_eq_not, Bool.not_true] at hsafe
+      have := hsafe kv hkv s hs
+      simp [hbv] at this
+    have hsem := subst_sem false t _ I hI hwf hn hck hσ hcap (fun e => by cases e)
+    rw [← emv] at hsem
+    rw [eval_mkAnd hI (wb_pair hsub (wb_mkAnd hweqs)), hwb.isB hI]
+    congr 1
+    simp only [List.all_cons, List.all_nil, Bool.and_true, truth_of_eval (eval_mkAnd hI hweqs), List.all_map]
+    by_cases hall : ∀ kv ∈ l.filter (fun kv => kv.1 != kv.2), eval I kv.1 = eval I kv.2
+    · have h1 : (l.filter (fun kv => kv.1 != kv.2)).all (truth I ∘ fun kv => Term.mkEq kv.1 kv.2) = true := by
+        rw [List.all_eq_true]
+        intro kv hkv
+        simp only [Function.comp, Term.mkEq, truth_equals, decide_eq_true_eq]
+        exact hall kv hkv
+      rw [h1, Bool.and_true]
+      -- under these equalities the updated interpretation is `I` itself
+      have hsymeq : ∀ x, (updSyms I ((l.filter (fun kv => kv.1 != kv.2)).map (fun kv => (symOf kv.1, kv.2)))).sym x =
+          I.sym x := by
+        intro x
+        show (match SMap.get ((l.filter (fun kv => kv.1 != kv.2)).map (fun kv => (symOf kv.1, kv.2))) x with
+            | some v => eval I v | none => I.sym x) = I.sym x
+        cases hg : SMap.get ((l.filter (fun kv => kv.1 != kv.2)).map (fun kv => (symOf kv.1, kv.2))) x with
+        | none => rfl
+        | some v =>
+          simp only
+          obtain ⟨kv, hkv, e⟩ := List.mem_map.mp (get_mem hg)
+          simp only [Prod.mk.injEq] at e
+          obtain ⟨e1, e2⟩ := e
+          subst e2
+          obtain ⟨hlm, _⟩ := hmoved kv hkv
+          obtain ⟨τ, _, hw1, _, _, _⟩ := hlty kv hlm
+          obtain ⟨hl1, _, hcc⟩ := hkind kv hlm
+          have hnc1 : isConstant kv.1 = false := by
+            cases hc : isConstant kv.1 with
+            | false => rfl
+            | true =>
+              have := List.any_eq_false.mp hnc kv hkv
+              simp [hc, hcc hc] at this
+          have hk1 : kv.1 = Term.sym x := by
+            rcases hl1 with hs | hc
+            · obtain ⟨s, e, _⟩ := sym_form hw1 hs
+              rw [e] at e1 ⊢
+              have : symOf (Term.sym s) = s := rfl
+              rw [this] at e1; rw [e1]
+            · rw [hnc1] at hc; cases hc
+          rw [← hall kv hkv, hk1]
+          exact eval_symbol I x []
+      have hupd : updSyms I ((l.filter (fun kv => kv.1 != kv.2)).map (fun kv => (symOf kv.1, kv.2))) = I := by
+        have hf := funext hsymeq
+        unfold updSyms at hf ⊢
+        simp only at hf
+        rw [hf]
+      rw [hupd] at hsem
+      simp only [truth, hsem]
+    · have h1 : (l.filter (fun kv => kv.1 != kv.2)).all (truth I ∘ fun kv => Term.mkEq kv.1 kv.2) = false := by
+        rw [List.all_eq_false]
+        have hex : ∃ kv, kv ∈ l.filter (fun kv => kv.1 != kv.2) ∧ ¬ eval I kv.1 = eval I kv.2 :=
+          Classical.byContradiction (fun hno => hall (fun kv hkv =>
+            Classical.byContradiction (fun hne => hno ⟨kv, hkv, hne⟩)))
+        obtain ⟨kv, hkv, hne⟩ := hex
+        exact ⟨kv, hkv, by simp only [Function.comp, Term.mkEq, truth_equals, decide_eq_true_eq]; exact hne⟩
+      rw [h1, Bool.and_false]
       cases ht : truth I t with
       | false => rfl
-      | true => exact absurd (const_inj hw1 hw2 hk.1 hk.2 I (key ht kv hm)) hne
-    · simp only [Option.pure_def, Option.some.injEq] at h
-      subst h
-      have heq : EqMap (l.filter (fun kv => kv.1 != kv.2)) := by
-        intro kv hkv
-        obtain ⟨τ, _, _, hw2, ht1, ht2⟩ := hlty kv (hmoved kv hkv).1
-        exact ⟨hw2, by rw [ht1, ht2]⟩
-      have hsub := hrep _ heq (fun kv hkv => hlmem kv (hmoved kv hkv).1)
-      have hwsub : WB (substT (l.filter (fun kv => kv.1 != kv.2)) t) := ⟨hsub.1.1, by rw [hsub.1.2]; exact hty⟩
-      have hweqs : ∀ x ∈ (l.filter (fun kv => kv.1 != kv.2)).map (fun kv => Term.mkEq kv.1 kv.2), WB x := by
-        intro x hx
-        obtain ⟨kv, hkv, rfl⟩ := List.mem_map.mp hx
-        obtain ⟨τ, hτ, hw1, hw2, ht1, ht2⟩ := hlty kv (hmoved kv hkv).1
-        exact wb_mkEq hτ hw1 hw2 ht1 ht2
-      have hwpair := wb_pair hwsub (wb_mkAnd hweqs)
-      rw [eval_mkAnd hI hwpair, hwb.isB hI]
-      congr 1
-      simp only [List.all_cons, List.all_nil, Bool.and_true, truth_of_eval (eval_mkAnd hI hweqs), List.all_map]
-      -- do all the recorded equalities hold?
-      by_cases hall : ∀ kv ∈ l.filter (fun kv => kv.1 != kv.2), eval I kv.1 = eval I kv.2
-      · have h1 : (l.filter (fun kv => kv.1 != kv.2)).all (truth I ∘ fun kv => Term.mkEq kv.1 kv.2) = true := by
-          rw [List.all_eq_true]
-          intro kv hkv
-          simp only [Function.comp, Term.mkEq, truth_equals, decide_eq_true_eq]
-          exact hall kv hkv
-        rw [h1, Bool.and_true]
-        simp only [truth, hsub.2 I hI hall]
-      · have h1 : (l.filter (fun kv => kv.1 != kv.2)).all (truth I ∘ fun kv => Term.mkEq kv.1 kv.2) = false := by
-          rw [List.all_eq_false]
-          have hex : ∃ kv, kv ∈ l.filter (fun kv => kv.1 != kv.2) ∧ ¬ eval I kv.1 = eval I kv.2 :=
-            Classical.byContradiction (fun hno => hall (fun kv hkv =>
-              Classical.byContradiction (fun hne => hno ⟨kv, hkv, hne⟩)))
-          obtain ⟨kv, hkv, hne⟩ := hex
-          exact ⟨kv, hkv, by simp only [Function.comp, Term.mkEq, truth_equals, decide_eq_true_eq]; exact hne⟩
-        rw [h1, Bool.and_false]
-        cases ht : truth I t with
-        | false => rfl
-        | true => exact absurd (fun kv hkv => key ht kv (hmoved kv hkv).1) hall
+      | true => exact absurd (fun kv hkv => key I hI ht kv (hmoved kv hkv).1) hall
 
-/-- **`propagate_equiv`** on quantifier-free formulas -/
-theorem propagate_equiv_qf (rank : Term → Int) (t r : Term) (hwf : t.wf = true) (hty : t.typeOf = some .bool)
-    (hqf : t.isQF = true) (h : propagate rank t = some r) (I : Interp) (hI : I.WF) :
-    eval I r = eval I t :=
-  propagate_core rank t r hwf hty (fun σ hσ _ => substT_equal hσ t hwf hqf) h I hI
-
-/-- **`propagate_equiv`** when no symbol of a top-level definition is bound anywhere in the formula -/
-theorem propagate_equiv_safe (rank : Term → Int) (t r : Term) (hwf : t.wf = true) (hty : t.typeOf = some .bool)
-    (hsafe : propagateSafe t = true) (h : propagate rank t = some r) (I : Interp) (hI : I.WF) :
-    eval I r = eval I t := by
-  refine propagate_core rank t r hwf hty (fun σ hσ hmem => ?_) h I hI
-  apply substT_equal_gen hσ (boundVars t) _ t hwf (fun s hs => hs)
-  intro kv hkv s hs hb
-  unfold propagateSafe at hsafe
-  simp only [List.all_eq_true, Bool.not_eq_eq_eq_not, Bool.not_true] at hsafe
-  rcases List.mem_append.mp hs with h1 | h1
-  · have := hsafe _ (hmem kv hkv).1 s h1
-    simp [hb] at this
-  · have := hsafe _ (hmem kv hkv).2 s h1
-    simp [hb] at this
+end
 
 end PySMT.Rewritings
